@@ -1096,6 +1096,20 @@ fn c11_oracle(sc: &Scenario, ex: &Execution, info: &mut CaseInfo) -> Vec<Finding
 // ---- C14 -----------------------------------------------------------------------------------
 
 fn tasks_strategy(t: Tier) -> BoxedStrategy<Scenario> {
+    // one case in four: a task is held at one of the first points of a poll / start_send / direct
+    // receive while everybody else runs on (round-8 seed: a stream task that waits on the slot of
+    // its failed attempt instead of the slot of the position it read afterwards)
+    (tasks_strategy_base(t), gen::stall_call_schedule(400, &[13, 13, 13, 2, 7]), prop_oneof![3 => Just(false), 1 => Just(true)])
+        .prop_map(|(mut sc, stall, on)| {
+            if on {
+                sc.sched = stall;
+            }
+            sc
+        })
+        .boxed()
+}
+
+fn tasks_strategy_base(t: Tier) -> BoxedStrategy<Scenario> {
     gen::traffic(
         gen::qcfg(BOTH, FutMode::Always, prop_oneof![Just(1u8), Just(2u8)].boxed(), gen::wait_any()),
         scaled(
